@@ -152,9 +152,14 @@ def child_env(hashseed=None):
     return env
 
 
+DEADLINE = [None]
+
+
 def run_job(job):
     if _STOP.is_set():
         return {'id': job['id'], 'kind': job['kind'], 'skipped': True, 'job': job}
+    if DEADLINE[0] is not None and job['kind'] == 'verify' and time.time() > DEADLINE[0]:
+        return {'id': job['id'], 'kind': job['kind'], 'not_run': True, 'job': job}
     jf = os.path.join(job['workdir'], job['id'] + '.job.json')
     json.dump(job, open(jf, 'w'))
     t0 = time.time()
@@ -212,6 +217,8 @@ def classify(res):
     """-> 'confirmed' | 'refuted' | 'unknown' | 'crash'"""
     if res.get('skipped'):
         return 'skipped'
+    if res.get('not_run'):
+        return 'not_run'
     if 'crash' in res:
         return 'crash'
     states = [m['state'] for m in res.get('messages', [])]
@@ -289,8 +296,18 @@ def check_property(prop, tier='quick', only=None, verbose=True):
                                  wmod='w_' + jid, hmod=hmodname, hfn=h['fn'],
                                  call_args=call_args, vec=vec, workdir=workdir,
                                  verif=VERIF, timeout=120, path_timeout=120))
-        # longest first
-        jobs.sort(key=lambda j: (j['kind'] != 'verify', -j['timeout']))
+        # thorough tier: a wall-clock budget (VERIF_BUDGET_S, default 600 s; 0 = unlimited) after which no further slice is
+        # started; slices that were not started are reported as not explored (never as confirmed).  The twins run first, the
+        # slices of the harnesses are interleaved so that every harness gets its share of the budget.
+        budget = float(os.environ.get('VERIF_BUDGET_S', '0' if tier == 'quick' else '600') or 0)
+        DEADLINE[0] = (t_start + budget) if budget > 0 else None
+        if DEADLINE[0] is None:
+            jobs.sort(key=lambda j: (j['kind'] != 'verify', -j['timeout']))          # longest first
+        else:
+            rank = {}
+            for j in jobs:
+                rank[j['id']] = sum(1 for k in jobs if k['harness'] == j['harness'] and k['kind'] == 'verify' and jobs.index(k) < jobs.index(j))
+            jobs.sort(key=lambda j: (j['kind'] == 'verify', rank[j['id']] if j['kind'] == 'verify' else 0))
         hmap0 = {h['name']: h for h in SPEC['harnesses']}
         with ThreadPoolExecutor(NPROC) as ex:
             futs = [ex.submit(run_job, j) for j in jobs]
@@ -309,6 +326,7 @@ def check_property(prop, tier='quick', only=None, verbose=True):
 
     hmap = {h['name']: h for h in SPEC['harnesses']}
     violations, errors, inconclusive, lines = [], [], [], []
+    not_explored = []
     per_job = []
     native_execs = 0
     for r in results:
@@ -321,6 +339,9 @@ def check_property(prop, tier='quick', only=None, verbose=True):
                    pres=j.get('pres'))
         per_job.append(rec)
         if c == 'skipped':
+            continue
+        if c == 'not_run':
+            not_explored.append(j['id'])
             continue
         if c == 'crash':
             errors.append('%s: worker crash: %s' % (j['id'], (r.get('crash') or str(r.get('messages')))[-1500:]))
@@ -420,7 +441,7 @@ def check_property(prop, tier='quick', only=None, verbose=True):
             'rule': 'one evaluation = one path of the real code explored by CrossHair (symbolic inputs, z3 decides each '
                     'branch); distinct_nontrivial = number of distinct concrete event summaries (H.LAST) produced by those '
                     'paths minus one (the all-default world)',
-            'exhaustive': (not inconclusive and not errors and bool(verify)
+            'exhaustive': (not inconclusive and not errors and not not_explored and bool(verify)
                            and all(p['verdict'] in ('confirmed', 'refuted') for p in verify)),
             'explanation': 'bounded symbolic execution (CrossHair 0.0.110 / z3) of the real functions; a slice is '
                            '"confirmed" only when CrossHair exhausted its path tree',
@@ -431,6 +452,8 @@ def check_property(prop, tier='quick', only=None, verbose=True):
             'queries_discharged': sum(p['queries'] for p in per_job),
             'solver_s': round(sum(p['solver_s'] for p in per_job), 2),
             'inconclusive': inconclusive,
+            'not_explored_time_budget': not_explored,
+            'time_budget_s': (DEADLINE[0] - t_start) if DEADLINE[0] else None,
             'harness_errors': errors,
             'known_findings': kf_lines,
             'stubs': SPEC.get('stubs', []),
@@ -458,9 +481,12 @@ def check_property(prop, tier='quick', only=None, verbose=True):
         print('%s %s: %d jobs, %d paths, %d solver queries (%.1fs solver), wall %.0fs; confirmed=%d refuted=%d inconclusive=%d errors=%d'
               % (prop, tier, len(per_job), paths, ev['coverage']['queries_discharged'], ev['coverage']['solver_s'],
                  ev['wall_s'], sum(p['verdict'] == 'confirmed' for p in verify),
-                 sum(p['verdict'] == 'refuted' for p in verify), len(inconclusive), len(errors)))
+                 sum(p['verdict'] == 'refuted' for p in verify), len(inconclusive), len(errors)) + (' not-explored=%d' % len(not_explored) if not_explored else ''))
         for i in inconclusive:
             print('INCONCLUSIVE', i)
+        if not_explored:
+            print('NOT-EXPLORED %d of %d slices were not started within the time budget of %.0f s (VERIF_BUDGET_S=0 lifts it): %s'
+                  % (len(not_explored), len(verify), DEADLINE[0] - t_start, ' '.join(not_explored[:12]) + (' ...' if len(not_explored) > 12 else '')))
     for name, vec, rp in violations:
         print('VIOLATION property=%s replay=%s' % (prop, rp))
     if violations:
